@@ -32,6 +32,8 @@ Alpha ==
          <<"M", "m", "L", "l", "H", "v", "C", "c", "s", "Q", "t", "A", "a", "z", "0", "1", "-2", "1e9", ".5", ",", "1-2.5.5", "+">>
     [] Family = "svgattr" ->
          <<"translate(", "rotate(", "scale(", "matrix(", "skewX(", ")", ",", " ", "1", "-2", "1e+5", ".5", "xMidYMid", "xMin", "meet", "slice", "none", "x", "%", "px", "em", "+", "e">>
+    [] Family = "svgref" ->   \* values of the attributes that hold a reference: url(#id) with or without quotes, broken in every way
+         <<"url(", "'", "\"", "#", "g", ")", " ", "none", "x">>
     [] Family = "descriptor" ->
          <<"x", "\"s\"", "url(u)", "format(", "format(\"woff\")", "local(", "local(n)", ")", ",", "U+26", "U+0-7F", "U+4??", "cyclic", "fixed", "additive", "extends", "symbolic",
            "infinite", "0", "1", "-3", "5", "auto", "bold", "italic", "normal", "/", "1px">>
